@@ -1137,6 +1137,12 @@ def check_handle_item_pairing(rep, fl, rule="R06.2", collisions=True, only_sites
                     vic_switch.append(bi)
                     if atom[2] == "Some":
                         some_edges.append(tgt)
+    if not vic_switch:
+        # `for victim in victim_sets.into_iter().flatten()`: the loop itself looks at the list (no rounds for None)
+        for it_ in iterations(hi):
+            if mentions(norm(hi.expand(it_.source)), victims):
+                vic_switch.append(it_.nbi)
+                some_edges.append(it_.some)
     errs = [x for x, tt in hi.calls() if callee_matches(hi.callee_of(tt), "FromResidual::from_residual")]
     okv = bool(vic_switch) and must_pass_through(hi, vic_switch + errs, from_bi=adds[0][0])
     if okv and vic_rm is not None:
